@@ -33,6 +33,8 @@ package routine
 //   S2  without a routine, the owner has no state routine or its state is empty
 // Exit status and restart rules (C14):
 //   W2  a record whose instance has not exited carries no result (results of earlier instances are not visible)
+//   W3  a retry timer is pending only for a record that exited with an error (a timer that fires late finds
+//       deferRetry changed and does nothing)
 //   execute$1 exit: the result fields are written only by the instance that is current for its record
 //   T1  failed, wanted and retry configured implies a retry timer is armed (unless the backoff said stop: bstop)
 //   SetContext$1 / retry callback exit: a succeeded routine is not started again, a failed one only with restart
@@ -73,6 +75,7 @@ package routine
 //@   inv S1: scof(this) != nil && this.routine != nil ==> rst(this.routine.routine) == cast(scof(this), StateRoutineContainer).s && cast(scof(this), StateRoutineContainer).s != zero()
 //@   inv S2: scof(this) != nil && this.routine == nil ==> cast(scof(this), StateRoutineContainer).stateRoutine == nil || cast(scof(this), StateRoutineContainer).s == zero()
 //@   inv W2: forall rr: *runningRoutine {rr.r} :: rr.r == this && rr.ctx != nil && !rr.exited ==> rr.err == nil && !rr.success
+//@   inv W3: forall rr: *runningRoutine {rr.r} :: rr.r == this && rr.deferRetry != nil ==> this.retryBo != nil && rr.exited && !rr.success
 //@   inv T1: this.retryBo != nil && this.routine != nil && this.ctx != nil && this.routine.exited && !this.routine.success && !bstop(this.routine) ==> this.routine.deferRetry != nil
 //@   stable SB: this.routine != nil ==> !bstop(this.routine)
 //@   inv H3: this.routine == nil ==> this.prevExitedCh == this.lastCh || (this.prevExitedCh == nil && (this.lastCh == nil || closed(this.lastCh)))
@@ -201,6 +204,7 @@ package routine
 //@   props C04 C14 C13
 //@   opt frame = skip
 //@   requires r != nil && r.r != nil
+//@   assume timerset: timer != nil
 //
 //@ closure (*runningRoutine).execute$1$1$1
 //@   props C04 C14
